@@ -9,6 +9,7 @@ cp /repo/Cargo.lock deps/astdeps/Cargo.lock
 python3 tools/gen_astspec.py
 python3 tools/gen_lspspec.py
 python3 tools/gen_lspspec_main.py
+python3 tools/gen_lspspec_completion.py
 cp /repo/Cargo.lock replay/Cargo.lock
 ( cd replay && CARGO_TARGET_DIR=../build/replay-target cargo build --offline --quiet )
 # the server binary for handler-level (stdio JSON-RPC) replays
